@@ -96,7 +96,7 @@ pub fn blocks(ctx: &Ctx, rep: &mut Report) {
         check_base(1u128 << k, rep);
         check_base((1u128 << k) - 1, rep);
     }
-    let nrand = ctx.sz(1_000_000, 40_000_000);
+    let nrand = ctx.sz(1_000_000, 200_000_000);
     let r = par_for(16, ncpu(), |w, rep| {
         let mut rng = rng_for(ctx.seed, &format!("c09-blocks-{}", w));
         for i in 0..nrand / 16 {
@@ -225,7 +225,7 @@ pub fn totality(ctx: &Ctx, rep: &mut Report) {
         (1.8205, SIGMIN_512),
         (1.43300980528773, 1.43200980528773), // key generation's use
     ];
-    let reps = ctx.sz(40, 2000);
+    let reps = ctx.sz(40, 10000);
     let jobs = mus.len() * sigmas.len();
     let r = par_for(jobs, ncpu(), |job, rep| {
         let mu = mus[job % mus.len()];
@@ -356,7 +356,7 @@ fn spec_sampler_on_log(mu: f64, sigma: f64, sigmin: f64, log: &[u8]) -> Option<i
 pub fn distribution(ctx: &Ctx, rep: &mut Report) {
     let mus: Vec<f64> = vec![0.0, 0.5, -0.5, 0.25, 1e-9, -91.90471153063714, 12345.678, -20000.3, 0.999999];
     let sigmas: Vec<(f64, f64)> = vec![(SIGMIN_512, SIGMIN_512), (SIGMIN_1024, SIGMIN_1024), (1.5, SIGMIN_512), (1.7, SIGMIN_1024), (1.8205, SIGMIN_512)];
-    let n = ctx.sz(1_500_000, 30_000_000);
+    let n = ctx.sz(1_500_000, 100_000_000);
     let jobs = mus.len() * sigmas.len();
     // thresholds: chi2 p-value floor 1e-9, |z| < 6 (2e-9 each): family-wise < 5e-7 per run
     let r = par_for(jobs, ncpu(), |job, rep| {
@@ -453,8 +453,8 @@ pub fn in_situ(ctx: &Ctx, rep: &mut Report) {
 
 fn in_situ_pooled<V: Fv>(ctx: &Ctx, rep: &mut Report) {
     use std::sync::Mutex;
-    let (keys, _bad) = pool::keys::<V>(ctx.seed, "c09-insitu", ctx.sz(2, 8));
-    let nmsg = ctx.sz(60, 600);
+    let (keys, _bad) = pool::keys::<V>(ctx.seed, "c09-insitu", ctx.sz(2, 16));
+    let nmsg = ctx.sz(60, 1500);
     let acc: Mutex<(f64, f64, u64)> = Mutex::new((0.0, 0.0, 0));
     let r = par_for(keys.len() * nmsg, ncpu(), |job, rep| {
         let k = &keys[job % keys.len()];
